@@ -185,9 +185,14 @@ public:
     return args[2];
   }
 
+  /// A three-arguments selection has just one pair of branches: there is a
+  /// penalty when they are the same expression (`comparison_function_penalty`
+  /// is for the four-arguments comparisons and would read a fourth,
+  /// nonexistent, argument).
   double penalty_nvi(core_interpreter *ci) const final
   {
-    return comparison_function_penalty(ci);
+    auto i(static_cast<interpreter<i_mep> *>(ci));
+    return i->fetch_index(1) == i->fetch_index(2);
   }
 };
 
